@@ -72,6 +72,18 @@ fn compare_with_truth(rep: &mut Report, what: &str, wal: &Wallet, tr: &BTreeMap<
 			rep.violation(&format!("C16|{}|unspent-record-not-in-utxo|coinbase={}", what, o.is_coinbase), &format!("{}: the wallet records output {} (value {}) as {} but it is not in the UTXO set", what, &c[..16], o.value, status_str(&o.status)), case.clone());
 		}
 	}
+	// every account path that holds outputs on chain must be reachable through an account of the wallet
+	let paths: Vec<String> = wal.accounts().unwrap_or_default().iter().map(|a| idstr(&a.path)).collect();
+	let mut roots: Vec<&String> = tr.values().map(|(_, root, _, _)| root).collect();
+	roots.sort();
+	roots.dedup();
+	for r in roots {
+		if !paths.contains(r) {
+			ok = false;
+			let v: u64 = tr.values().filter(|(_, root, _, _)| root == r).map(|(v, _, _, _)| *v).sum();
+			rep.violation(&format!("C16|{}|account-path-unreachable", what), &format!("{}: outputs worth {} lie on account path {} but no account of the scanned wallet has that path (accounts: {:?})", what, v, r, wal.accounts().unwrap_or_default().iter().map(|a| format!("{}={}", a.label, idstr(&a.path))).collect::<Vec<_>>()), case.clone());
+		}
+	}
 	// spendable / immature totals per account from chain truth
 	for acct in wal.accounts().unwrap_or_default() {
 		let _ = wal.set_account(&acct.label);
@@ -118,6 +130,7 @@ pub fn run(a: &Args) {
 		std::fs::create_dir_all(&scratch).unwrap();
 		let mut cfg = cfg_for("C04", false);
 		cfg.allow_minconf0 = false;
+		cfg.third_account = si % 2 == 1;
 		cfg.steps = 70 + rng.usize(80);
 		let hseed = rng.next();
 		let mut hrng = Rng::new(hseed);
@@ -151,6 +164,14 @@ pub fn run(a: &Args) {
 			match Wallet::create(world.node.clone(), &rdir, "restored", MNEMONICS[wi], "", false) {
 				Err(e) => rep.inconclusive(&format!("restore create: {:?}", e)),
 				Ok(rw) => {
+					// sometimes the user has already created an account in the new wallet before scanning, with a
+					// label of the kind the scan itself hands out
+					if rng.chance(1, 2) {
+						let l = *rng.pick(&["account_1", "account_2", "savings"]);
+						if rw.create_account(l).is_ok() {
+							rep.count("restore:account-created-before-the-scan");
+						}
+					}
 					let start = *rng.pick(&[None, Some(1u64)]);
 					match catch(|| rw.scan(start, false)) {
 						Err((loc, msg)) => rep.violation(&format!("C16|panic|{}", loc), &msg, case.clone()),
